@@ -11,7 +11,7 @@ pub static DEF: CheckDef = CheckDef {
     id: "C13",
     run,
     replay,
-    rule: "proptest histories of up to 14 operations over {write DIV, write TIMA(v), write TMA(v), write TAC(v) (any byte), advance(n)} with n from 1 clock to 200000 clocks (biased to the four periods +-2 and to multiples of 65536), executed (1) on the Timer device directly (any n) and (2) through the bus (0xFF04-0xFF07, MemoryAreas::run_clock_cycles with multiples of 4, IF bit 2). After every operation DIV, TIMA, TMA, TAC (low 3 bits) and whether the timer interrupt was requested by that operation are compared with the per-clock reference timer (models::timer). Metamorphic: every advance(n) is also executed split at generated cut points on a second instance; observations after every operation must be identical to the unsplit run. Plus an exhaustive sweep: all 8 TAC values x every divider phase 0..2047 x TAC rewrite to every other value (the glitch relation), and all 8 TAC values x advance(n) for n in 1..=2100 from phase 0. Non-trivial = history with an overflow, a TAC-write edge, a disabled stretch or a split advance containing an increment; distinct by hash of the history. Program layer (the glue between the CPU loop and the device): generated structured programs (C04's generator with the device fragments weighted up: TAC/TMA/TIMA writes, DIV reads, EI;HALT and STOP with a timer wake-up) run on a whole core in three stepping modes (interpreter instruction-stepped, interpreter block-stepped, jit block-stepped); the reference machine says which bus writes each step made, how many clocks it is worth and which request was acknowledged, and the independent model fed with exactly that must agree with DIV (and the 16-bit divider), TIMA, TMA, TAC and IF bit 2 after every step. A DIV write while the selected bit is high leaves TIMA one increment open, as at device level.",
+    rule: "proptest histories of up to 14 operations over {write DIV, write TIMA(v), write TMA(v), write TAC(v) (any byte), advance(n)} with n from 1 clock to 2000000 clocks (biased to the four periods +-2 and to multiples of 65536 up to 24 x 65536), executed (1) on the Timer device directly (any n) and (2) through the bus (0xFF04-0xFF07, MemoryAreas::run_clock_cycles with multiples of 4, IF bit 2). After every operation DIV, TIMA, TMA, TAC (low 3 bits) and whether the timer interrupt was requested by that operation are compared with the per-clock reference timer (models::timer). Metamorphic: every advance(n) is also executed split at generated cut points on a second instance; observations after every operation must be identical to the unsplit run. Plus an exhaustive sweep: all 8 TAC values x every divider phase 0..2047 x TAC rewrite to every other value (the glitch relation), and all 8 TAC values x advance(n) for n in 1..=2100 from phase 0. Non-trivial = history with an overflow, a TAC-write edge, a disabled stretch or a split advance containing an increment; distinct by hash of the history. Program layer (the glue between the CPU loop and the device): generated structured programs (C04's generator with the device fragments weighted up: TAC/TMA/TIMA writes, DIV reads, EI;HALT and STOP with a timer wake-up) run on a whole core in three stepping modes (interpreter instruction-stepped, interpreter block-stepped, jit block-stepped); the reference machine says which bus writes each step made, how many clocks it is worth and which request was acknowledged, and the independent model fed with exactly that must agree with DIV (and the 16-bit divider), TIMA, TMA, TAC and IF bit 2 after every step. A DIV write while the selected bit is high leaves TIMA one increment open, as at device level.",
     assumptions: &[
         "models::timer (divider + falling-edge detector, immediate TMA reload on overflow as the property states it)",
         "a DIV write while the selected divider bit is high: the property does not name that edge; both TIMA outcomes are accepted (set-valued model)",
@@ -201,7 +201,8 @@ fn exec_on(whole: &mut dyn Dut, split: &mut dyn Dut, quantum: u32, ops: &[Op], s
                     if a.tac & 4 == 0 {
                         st.disabled = true;
                     }
-                    let (incs, ovf) = a.advance(n as u64);
+                    // closed form for long batches (models::timer proves it equal to the per-clock model)
+                    let (incs, ovf) = if n > 4096 { a.advance_fast(n as u64) } else { a.advance(n as u64) };
                     if ovf > 0 {
                         st.overflow = true;
                     }
@@ -316,6 +317,8 @@ fn op_strategy() -> impl Strategy<Value = Op> {
         3 => 1u32..2100,
         1 => 1u32..70000,
         1 => 1u32..200000,
+        1 => 200_000u32..2_000_000,
+        1 => (1u32..=24, 0u32..5).prop_map(|(k, d)| k * 65536 + d - 2),
     ];
     let cuts = prop::collection::vec(any::<u16>(), 0..5);
     prop_oneof![
